@@ -200,10 +200,10 @@ _AS_OF = ["CL", "CD", "CM", "fuelburn", "L_equals_W", "wing_perf.failure", "tota
 @oracle("C02", "aerostruct_totals_fwd_rev_fd")
 def c02_aerostruct(rng, tier):
     relief = bool(rng.integers(2))
-    s = _as_surface(rng, tier, struct_weight_relief=relief, with_wave=bool(rng.integers(2)))
+    s = _as_surface(rng, tier, struct_weight_relief=relief, with_wave=bool(rng.integers(2)), chord_cp=np.array([1.0, 1.0]))
     flow = _as_flow(rng)
     ofs = ["AS_point_0." + o for o in _AS_OF if o != "total_perf.wing_structural_mass"] + ["wing.structural_mass"]
-    wrt = ["alpha", "Mach_number", "v", "rho", "load_factor", "wing.thickness_cp", "wing.twist_cp"]
+    wrt = ["alpha", "Mach_number", "v", "rho", "load_factor", "wing.thickness_cp", "wing.twist_cp", "wing.geometry.chord_cp"]
     from . import oracles as _o
     lin = ["lbgs", "krylov", "direct"][_o.CURRENT_K % 3]       # every solver is exercised in both modes in every run
     rng.choice(["direct", "lbgs", "krylov"])                    # (keeps the random stream of earlier versions)
@@ -221,13 +221,33 @@ def c02_aerostruct(rng, tier):
     case = dict(ny=s["mesh"].shape[1], symmetry=s["symmetry"], linear_solver=lin, weight_relief=relief, load_factor=flow["load_factor"],
                 k_lam=s.get("k_lam"), S_ref_type=s.get("S_ref_type"))
     if nonconv:
-        raise Discard()      # convergence of the iterative linear solvers is runtime behaviour (hypothesis of the property)
+        if lin == "lbgs" and len(nonconv) == 1:
+            # the block Gauss-Seidel iterations of the two modes act on transposed systems (same spectrum): when one mode converges
+            # well inside the iteration limit and the other does not even with ten times the limit, the reverse-mode solves of
+            # the subsystems are not the transposes of the forward-mode ones
+            m = list(nonconv)[0]
+            pipelines.LBGS_MAXITER = 3000
+            try:
+                p = pipelines.build_aerostruct([s], [flow], linear=lin, mode=m)
+                with quiet():
+                    p.run_model()
+                    try:
+                        res[m] = p.compute_totals(of=ofs, wrt=wrt, return_format="array"); nonconv.pop(m)
+                    except om.AnalysisError:
+                        pass
+            finally:
+                pipelines.LBGS_MAXITER = 300
+            if nonconv:
+                return [_fail("linear block Gauss-Seidel converges in one derivative mode but not in %s mode (3000 iterations)" % m,
+                              nonconv[m], "both modes converge to the same totals", **case)]
+        else:
+            raise Discard()      # convergence of Krylov / of both modes is runtime behaviour (hypothesis of the property)
     sc = np.maximum(np.max(np.abs(res["fwd"]), axis=0, keepdims=True), 1e-30)
     fv = np.concatenate([np.atleast_1d(p.get_val(o)).ravel() for o in ofs])
     xv = np.concatenate([np.atleast_1d(p.get_val(w)).ravel() for w in wrt])
-    # unpreconditioned GMRES reaches its residual tolerance, not the same accuracy in the solution (condition number of the
+    # the iterative solvers reach their residual tolerance, not the same accuracy in the solution (condition number of the
     # coupled system): "the same values to solver tolerance"
-    tol_lin = 2e-4 if lin == "krylov" else 1e-6
+    tol_lin = 1e-6 if lin == "direct" else 2e-4
     ok, msg = core.close_jac(res["fwd"], res["rev"], rtol=tol_lin, fvals=fv, xvals=xv, noise=1e-9)
     if not ok:
         out.append(_fail("forward and reverse mode totals differ", msg, "equal", **case))
@@ -249,11 +269,16 @@ def c02_aerostruct(rng, tier):
     col = 0
     for name in wrt:
         n = np.atleast_1d(p.get_val(name)).size
-        if n == 1 and name in ("alpha", "load_factor", "v"):
-            x0 = float(p.get_val(name)[0]); h = 1e-4 * max(1.0, abs(x0))
-            d1 = (f(name, x0 + h) - f(name, x0 - h)) / (2 * h); d2 = (f(name, x0 + h / 2) - f(name, x0 - h / 2)) / h
+        if (n == 1 and name in ("alpha", "load_factor", "v")) or name == "wing.geometry.chord_cp":
+            # scalars, and the first entry of the chord distribution (the only variable here that changes chord lengths)
+            xfull = np.array(p.get_val(name), dtype=float).copy()
+            x0 = float(xfull.ravel()[0]); h = 1e-4 * max(1.0, abs(x0))
+            def at(v, xfull=xfull):
+                xx = xfull.copy(); xx.ravel()[0] = v
+                return xx
+            d1 = (f(name, at(x0 + h)) - f(name, at(x0 - h))) / (2 * h); d2 = (f(name, at(x0 + h / 2)) - f(name, at(x0 - h / 2))) / h
             fd = (4 * d2 - d1) / 3
-            f(name, x0)
+            f(name, xfull)
             an = res["fwd"][:, col]
             sc2 = max(np.max(np.abs(fd)), np.max(np.abs(an)), 1e-30)
             if np.max(np.abs(fd - an)) > 2e-5 * sc2:
